@@ -71,13 +71,13 @@ Qed.
 
 End pins.
 
-(* K3: with a failed update the statement is false.  One pool, sharable CPUs {1,2,3}: c1 gets 500m
-   (told 1-3); its UpdateContainer fails (grant released, still pinned to 1-3); c2 gets CPU 1
+(* K3: with a failed re-allocation the statement is false.  One pool, sharable CPUs {1,2,3}: c1 gets
+   500m (told 1-3); its re-allocation fails (grant released, still pinned to 1-3); c2 gets CPU 1
    exclusively -- c1, which is still running, is allowed on it. *)
 Definition k3_tree : tree := [ {| p_parent := None; p_iso := ∅; p_res := ∅; p_shar := list_to_set [1%nat; 2%nat; 3%nat] |} ].
 Definition k3_ops : list pop :=
   [ PStep (OAlloc 1 {| r_full := 0; r_fraction := 500; r_isolate := false; r_type := CpuNormal |} 0 ∅);
-    PFailedUpdate 1;
+    PLostGrant 1;
     PStep (OAlloc 2 {| r_full := 1; r_fraction := 0; r_isolate := false; r_type := CpuNormal |} 0 (list_to_set [1%nat])) ].
 
 Lemma stale_pin_refuted :
